@@ -37,7 +37,10 @@ SummOK(e) ==
          [] e.stat = "wsum_int"  -> WSumIntOK(e.r, e.w, e.res)
          [] e.stat = "wmean"     -> ~Special(e.res) /\ WMeanOK(e.r, e.w, e.S, e.res, e.qe, e.tol)
          [] e.stat = "wmean_int" -> WMeanIntOK(e.r, e.w, e.res)
+         [] e.stat = "wsum_axis_int"  -> AxisOK(e, LAMBDA ln, v : WSumIntOK(ln, e.w, v))
+         [] e.stat = "wmean_axis_int" -> AxisOK(e, LAMBDA ln, v : WMeanIntOK(ln, e.w, v))
          [] e.stat = "harmonic"  -> ~Special(e.res) /\ HarmonicOK(e.r, e.res, e.qe, e.tol)
+                                    /\ ~Special(e.res_neg) /\ Abs(e.res_neg + e.res) <= e.tol        \* odd function: all-negative data
          [] e.stat = "geometric" -> ~Special(e.res) /\ GeometricOK(e.r, e.res, e.qe, e.tol)
          [] e.stat = "wvar"      -> ~Special(e.res) /\ WVarOK(e.r, e.w, e.S, e.WS, e.d, e.res, e.qe, e.tol) /\ e.res >= -e.tol
          [] e.stat = "wstd"      -> ~Special(e.res) /\ WVarOK(e.r, e.w, e.S, e.WS, e.d, e.res, e.qe, 2 * e.tol)
@@ -106,6 +109,8 @@ DevOK(e) ==
     /\ Abs(e.fwd.l2sq - e.swp.l2sq) <= e.tol /\ Abs(e.fwd.mae - e.swp.mae) <= e.tol /\ Abs(e.fwd.mse - e.swp.mse) <= e.tol
     /\ e.same.count_eq = Len(e.a) /\ e.same.count_neq = 0                                                          \* identical arguments
     /\ e.same.sq = 0 /\ e.same.l1 = 0 /\ e.same.linf = 0 /\ e.same.l2sq = 0 /\ e.same.mae = 0 /\ e.same.mse = 0 /\ e.same.rmse2 = 0
+    \* float types: the ratio is scale invariant - signals and peak scaled by 2^-40 (mse far below machine epsilon) give the same value
+    /\ (Has(e, "psnr_small") /\ SqL2(e.a, e.b) > 0) => (~Special(e.psnr_small) /\ Abs(e.psnr_small - e.fwd.psnr) <= e.tol)
 
 (* NaN (code 99) is equal to nothing, itself included - whatever the operands' memory relation *)
 NanC == 99
@@ -118,10 +123,12 @@ DevNanOK(e) ==
     /\ \A x \in DOMAIN e.linf : e.linf[x] = e.linf[1] /\ e.linf[x] # ERRQ
     /\ \A x \in DOMAIN e.l1 : e.l1[x] = e.l1[1] /\ e.l1[x] # ERRQ
     /\ \A x \in DOMAIN e.sq : e.sq[x] = e.sq[1] /\ e.sq[x] # ERRQ
+    \* the same infinity on both sides (code 97): that difference is inf - inf = NaN, so the sums are NaN wherever the pair sits
+    /\ (\E x \in DOMAIN e.a : e.a[x] = 97) => (e.l1[1] = NANQ /\ e.sq[1] = NANQ)
     \* one infinite difference (code 98 on one side only) and no NaN pair: every sum and the maximum are +inf
     /\ ((\E x \in DOMAIN e.a : e.a[x] = 98) /\ \A x \in DOMAIN e.a : e.a[x] # NanC /\ e.b[x] # NanC) =>
            (e.l1[1] = BIGQ /\ e.sq[1] = BIGQ /\ e.linf[1] = BIGQ)
-    /\ (\A x \in DOMAIN e.a : e.a[x] \notin {NanC, 98} /\ e.b[x] # NanC) => (e.linf[1] = Linf(e.a, e.b) /\ e.l1[1] = L1(e.a, e.b))
+    /\ (\A x \in DOMAIN e.a : e.a[x] \notin {NanC, 98, 97} /\ e.b[x] # NanC) => (e.linf[1] = Linf(e.a, e.b) /\ e.l1[1] = L1(e.a, e.b))
 
 (* ---- C10 ---- *)
 NanCode == -1
